@@ -896,6 +896,31 @@ pub fn step_sql(c: &mut Case, kind: &str, _kv: &HashMap<String, String>, stats: 
             out.sort();
             format!("tbl={}", out.into_iter().map(|x| x.1).collect::<Vec<_>>().join("|"))
         }
+        "sqledge" => {
+            // sqledge -> edges=<src>><label>><dest>|…   the rows of `_edge` between rows of the case, by row numbers, sorted
+            let db = match c.db.as_ref() {
+                Some(d) => d,
+                None => return "err:nodb".into(),
+            };
+            let mut st = match db.conn.prepare("SELECT src, label, dest FROM _edge") {
+                Ok(s) => s,
+                Err(_) => return "err:sql".into(),
+            };
+            let mut out: Vec<String> = vec![];
+            let mut rows = st.query([]).unwrap();
+            while let Some(r) = rows.next().unwrap() {
+                let src: Vec<u8> = r.get(0).unwrap();
+                let label: String = r.get(1).unwrap();
+                let dest: Vec<u8> = r.get(2).unwrap();
+                let (a, b) = (discret::verif_hooks::security::base64_encode(&src), discret::verif_hooks::security::base64_encode(&dest));
+                match (c.logical.get(&a), c.logical.get(&b)) {
+                    (Some(x), Some(y)) => out.push(format!("{}>{}>{}", x, label, y)),
+                    _ => out.push("?".into()),
+                }
+            }
+            out.sort();
+            format!("edges={}", out.join("|"))
+        }
         _ => "bad-op".into(),
     }
 }
